@@ -71,3 +71,37 @@ func VerifH_PooledRealConn() {
 	vrt.Cover("pooled-real-end")
 	p.Close()
 }
+
+// VerifH_PoolSkipsClosingConn: a real connection whose Close is in progress (the transport's
+// Close has not returned yet) reports itself closed already, so the pool neither caches
+// nor hands it out.
+func VerifH_PoolSkipsClosingConn() {
+	tr := &hx.Transport{}
+	release := false
+	tr.CloseGate = &release
+	conn := drpcconn.NewWithOptions(tr, drpcconn.Options{Manager: drpcmanager.Options{SoftCancel: vrt.Bool("soft")}})
+	p := New[uint8, *drpcconn.Conn](Options{Capacity: 2})
+	how := vrt.Choice("how", 2)
+	ctx := hx.NewCtx()
+	switch how {
+	case 0: // the application closes the connection
+		go func() { _ = conn.Close() }()
+	case 1: // the peer goes away: the reader terminates the manager
+		tr.EOF = true
+		tr.CanRead = true
+	}
+	vrt.Quiesce()
+	vrt.Assert(tr.InClose, "the termination is inside the transport's Close")
+	vrt.Assert(hx.IsClosedCh(conn.Closed()), "a connection reports itself closed as soon as its termination has begun")
+	_, err := conn.NewStream(ctx, "rpc", hx.ByteEnc{})
+	vrt.Assert(err != nil, "calls on it fail")
+	p.Put(7, conn)
+	got, ok := p.Take(7)
+	vrt.Assert(!ok, "the pool does not hand out a connection that is being closed")
+	_ = got
+	release = true
+	vrt.Quiesce()
+	vrt.Assert(tr.Closes == 1, "transport closed exactly once")
+	vrt.Cover("pool-skips-closing-end")
+	p.Close()
+}
